@@ -182,7 +182,26 @@ contract(
 # =====================================================================================================
 # BaseOutlineCompiler.setupTable_cmap
 
+from pyvc.api import specfn  # noqa: E402
+
 from . import lib  # noqa: E402,F401
+
+
+# branch-free restatements of spec.uvs_entry / spec.uvs_list_ok (an `if` inside a spec function that is inlined under a
+# contradictory guard leaves no feasible return path in the engine: see notes/C03.requests.md)
+@specfn(Tuple(INT, Opt(STR)), hv=STR, gm=Dict(STR, STR), M=Dict(INT, STR))
+def uvs_entry_of(hv, gm, M):
+    """format-14 entry for base value hv: the DEFAULT form (value, None) iff the sequence names the base mapping's glyph"""
+    return (int_hex(hv), None if gm[hv] == M[int_hex(hv)] else gm[hv])
+
+
+@specfn(BOOL, L=List(Tuple(INT, Opt(STR))), gm=Dict(STR, STR), M=Dict(INT, STR))
+def uvs_list_of(L, gm, M):
+    """L lists one entry per base value of gm, in gm's order"""
+    return len(L) == len(list(gm)) and all(L[b] == uvs_entry_of(list(gm)[b], gm, M) for b in range(len(list(gm))))
+
+
+from .spec import int_hex  # noqa: E402,F401  (natively used by the two functions above)
 
 _M = "self.unicodeToGlyphNameMapping"
 _UVS = "self.ufo.lib['public.unicodeVariationSequences']"
@@ -202,34 +221,56 @@ contract(
         f"implies({_HAS_UVS}, all(all(implies(int_hex(a) == int_hex(b), a == b) for b in {_UVS}) for a in {_UVS}))",
     ],
     ensures={
-        "two-bmp-subtables": f"len({_CM}.tables) >= 2 and {_CM}.tables[0].format == 4 and {_CM}.tables[1].format == 4"
-        f" and ({_CM}.tables[0].platformID, {_CM}.tables[0].platEncID) == (0, 3) and ({_CM}.tables[1].platformID, {_CM}.tables[1].platEncID) == (3, 1)",
+        # (one fact per clause: a conjunction of five heap reads took the solvers several seconds)
+        "at-least-two": f"len({_CM}.tables) >= 2",
+        "bmp-subtable-0": f"{_CM}.tables[0].format == 4 and {_CM}.tables[0].platformID == 0 and {_CM}.tables[0].platEncID == 3",
+        "bmp-subtable-1": f"{_CM}.tables[1].format == 4 and {_CM}.tables[1].platformID == 3 and {_CM}.tables[1].platEncID == 1",
         # format 4 holds exactly the mappings with cp <= 0xFFFF
-        "bmp-exact": f"{_CM}.tables[0].cmap == {{k: v for k, v in {_M}.items() if k <= 65535}} and {_CM}.tables[1].cmap == {{k: v for k, v in {_M}.items() if k <= 65535}}",
+        # (stated point-wise: same mapping as `cmap == {k: v for k, v in M.items() if k <= 65535}`, without an equality
+        #  between lambda-defined dict values, on which the solvers were slow and unstable)
+        **{f"bmp-has-every-{t}": f"all(implies(k <= 65535, k in {_CM}.tables[{t}].cmap and {_CM}.tables[{t}].cmap[k] == {_M}[k]) for k in {_M})" for t in (0, 1)},
+        **{f"bmp-nothing-else-{t}": f"all(k in {_M} and k <= 65535 for k in {_CM}.tables[{t}].cmap)" for t in (0, 1)},
         # format 12 exists iff some code point is supplementary, and then holds ALL mappings
         "full-iff-nonbmp": f"iff(any(k > 65535 for k in {_M}), len({_CM}.tables) >= 4 and {_CM}.tables[2].format == 12)",
-        "full-exact": f"implies(any(k > 65535 for k in {_M}), {_CM}.tables[3].format == 12 and ({_CM}.tables[2].platformID, {_CM}.tables[2].platEncID) == (0, 4)"
-        f" and ({_CM}.tables[3].platformID, {_CM}.tables[3].platEncID) == (3, 10) and {_CM}.tables[2].cmap == {_M} and {_CM}.tables[3].cmap == {_M})",
-    },
-    bounded_ensures={
+        "full-subtable-2": f"implies(any(k > 65535 for k in {_M}), {_CM}.tables[2].platformID == 0 and {_CM}.tables[2].platEncID == 4)",
+        "full-subtable-3": f"implies(any(k > 65535 for k in {_M}), {_CM}.tables[3].format == 12 and {_CM}.tables[3].platformID == 3 and {_CM}.tables[3].platEncID == 10)",
+        **{f"full-has-every-{t}": f"implies(any(k > 65535 for k in {_M}), all(k in {_CM}.tables[{t}].cmap and {_CM}.tables[{t}].cmap[k] == {_M}[k] for k in {_M}))" for t in (2, 3)},
+        **{f"full-nothing-else-{t}": f"implies(any(k > 65535 for k in {_M}), all(k in {_M} for k in {_CM}.tables[{t}].cmap))" for t in (2, 3)},
+        # exactly these subtables: 2 (+2 when some code point is supplementary) (+1 when variation sequences are declared)
         "count": f"len({_CM}.tables) == 2 + ite(any(k > 65535 for k in {_M}), 2, 0) + ite({_HAS_UVS}, 1, 0)",
-        # format 14: default entry (value, None) iff the sequence names the base mapping's glyph
-        "uvs": f"implies({_HAS_UVS}, {_LAST}.format == 14 and ({_LAST}.platformID, {_LAST}.platEncID) == (0, 5)"
-        f" and all(int_hex(vs) in {_LAST}.uvsDict and uvs_list_ok({_LAST}.uvsDict[int_hex(vs)], {_UVS}[vs], {_M}) for vs in {_UVS}))",
+        "uvs-subtable": f"implies({_HAS_UVS}, {_LAST}.format == 14 and {_LAST}.platformID == 0 and {_LAST}.platEncID == 5)",
+        # format 14: one list per declared selector, one entry per base value in the declared order; the entry is the
+        # DEFAULT form (value, None) iff the sequence names the base mapping's glyph, else (value, glyph name)
+        "uvs": f"implies({_HAS_UVS}, all(int_hex(vs) in {_LAST}.uvsDict and uvs_list_of({_LAST}.uvsDict[int_hex(vs)], {_UVS}[vs], {_M}) for vs in {_UVS}))",
+        # ... and no list for a selector that is not declared
+        "uvs-only-declared": f"implies({_HAS_UVS}, all(any(int_hex(vs) == k for vs in {_UVS}) for k in {_LAST}.uvsDict))",
     },
-    canaries={"bmp-has-everything": f"{_CM}.tables[0].cmap == {_M}"},
+    canaries={
+        "bmp-has-everything": f"all(k in {_CM}.tables[0].cmap for k in {_M})",
+        "uvs-all-default": f"implies({_HAS_UVS}, all(all({_LAST}.uvsDict[k][b][1] is None for b in range(len({_LAST}.uvsDict[k]))) for k in {_LAST}.uvsDict))",
+        "never-uvs": f"len({_CM}.tables) == 2 + ite(any(k > 65535 for k in {_M}), 2, 0)",
+    },
+    # every `if` keeps its two paths apart ((non-BMP or not) x (UVS or not)): four simple post-states instead of one
+    # with ite-merged heap arrays and lambda-defined dicts (which took the solvers 5-16 s per clause)
+    merge_branches=False,
     locals={"uvsList": List(lib.UVS_ENTRY), "uvsDict": Dict(INT, List(lib.UVS_ENTRY))},
-    hints={"uvsDict = dict()": [f"mapping == {_M}"]},
+    hints={"uvsDict = dict()": [f"all(k in mapping and mapping[k] == {_M}[k] for k in {_M})"]},
+    ghost_vars={"wv": (Dict(INT, INT), "{}")},
+    ghost={"uvsDict[int(hexvs, 16)] = uvsList": ["wv = {**wv, int_hex(hexvs): i}"]},
     loops={
         "for (hexvs, glyphMapping) in uvsMapping.items()": Loop(
             index="i", seq="VS",
-            invariants={},
+            invariants={
+                "done": f"all(int_hex(VS[a]) in uvsDict and uvs_list_of(uvsDict[int_hex(VS[a])], uvsMapping[VS[a]], {_M}) for a in range(i))",
+                # ghost wv: selector key -> position of the declared selector that produced it
+                "only": "all(k in wv and 0 <= wv[k] and wv[k] < i and int_hex(VS[wv[k]]) == k for k in uvsDict)",
+            },
         ),
         "for (hexvalue, glyphName) in glyphMapping.items()": Loop(
             index="j", seq="HV",
             invariants={
                 "len": "len(uvsList) == j",
-                "entries": "all(uvsList[b] == uvs_entry(HV[b], glyphMapping, mapping) for b in range(j))",
+                "entries": "all(uvsList[b] == uvs_entry_of(HV[b], glyphMapping, mapping) for b in range(j))",
             },
         ),
     },
